@@ -455,6 +455,27 @@ func c01Spaces(c *fw.Ctx) {
 			}
 		})
 
+	c.Space("optional-fields", "RDATA layouts with an optional trailing field that the reference table writes in full: ISDN without its sub-address (RFC 1183 §3.2: <ISDN-address> alone is well-formed) — unpacks to the address, and packing the result reproduces the octets; non-trivial: all", true,
+		func(emit func(func(*fw.R))) {
+			emit(func(r *fw.R) {
+				r.Nontrivial()
+				w := []byte{1, 'a', 0, 0, 20, 0, 1, 0, 0, 0, 5, 0, 4, 3, '1', '2', '3'}
+				rr, off, err := dns.UnpackRR(w, 0)
+				if err != nil || off != len(w) {
+					r.Fail("unpack-error/ISDN/absent-sub-address", "UnpackRR(%x) = %v, off %d", w, err, off)
+					return
+				}
+				if i, ok := rr.(*dns.ISDN); !ok || i.Address != "123" || i.SubAddress != "" {
+					r.Fail("unpack-differs/ISDN/absent-sub-address", "UnpackRR(%x) = %v", w, rr)
+				}
+				b := make([]byte, 64)
+				n, err := dns.PackRR(rr, b, 0, nil, false)
+				if err != nil || !bytes.Equal(b[:n], w) {
+					r.Fail("repack-differs/ISDN/absent-sub-address", "Pack(Unpack(o)) = %x, %v; o = %x (ISDN with the sub-address absent)", b[:max(n, 0)], err, w)
+				}
+			})
+		})
+
 	ncList := c16NonCanonical()
 	c.Space("go-forms", fmt.Sprintf("%d records in forms only the Go structs can hold (parameter / option lists in every order, 16-octet IPv4 forms, unmasked prefixes, mixed case, names the packer completes): whatever PackRR emits for them is accepted by UnpackRR and re-packs to the same octets (the library does not emit what it rejects), SVCB / HTTPS parameters leave in strictly increasing key order (RFC 9460 §2.2) and every ordering of the same parameters packs to the same octets; non-trivial: PackRR succeeds", len(ncList)), true,
 		func(emit func(func(*fw.R))) {
